@@ -322,6 +322,10 @@ CO_ERR COSdoDownloadExpedited(CO_SDO *srv)
         width = 4 - ((cmd >> 2) & 0x03);
     }
     size = COSdoGetSize(srv, width, true);
+    if (size > 4) {
+        /* no size indicated and the object does not fit in the request */
+        COSdoAbort(srv, CO_SDO_ERR_LEN);
+    }
     if ((size > 0) && (size <= 4)) {
         data   = CO_GET_LONG(srv->Frm, 4);
         /* restart the write position of small domains */
